@@ -2,6 +2,7 @@ mod auth;
 mod codec;
 mod config;
 mod distro;
+mod indexfile;
 mod naming;
 mod sequence;
 mod util;
@@ -14,6 +15,7 @@ fn main() {
     match model {
         "codec" => codec::run(),
         "distro" => distro::run(),
+        "indexfile" => indexfile::run(),
         "naming" => naming::run(),
         "config" => config::run(),
         "openapi" | "console" | "perm" => auth::run(model),
